@@ -10,6 +10,7 @@
 //   BEGIN <echo>
 //   PART <id> <label> <mass> <anti>
 //   ACT  <id> <label>            (boundary / tracking-cut / failure... by label)
+//   MODELACT <first> <end>       (action ids of the discrete interaction models)
 //   S <iter> <slot> <event> <track> <parent> <nsteps> <action> <particle>
 //     <steplen> <edep>  <t0 x0 y0 z0 dx0 dy0 dz0 vol0 E0>  <t1 ... E1>
 //     <vol_mid> <vol_post> <vol_nudged> <status after the step>
@@ -213,6 +214,12 @@ void run_problem(P& prob,
         std::cout << "ACT " << aid.get() << ' ' << ar.id_to_label(aid) << '\n';
     }
 
+    {
+        auto const& sc = core->physics()->host_ref().scalars;
+        std::cout << "MODELACT " << sc.model_to_action << ' '
+                  << sc.model_to_action + sc.num_models << '\n';
+    }
+
     auto coll = std::make_shared<Collector>(core->geometry());
     StepCollector::make_and_insert(*core, {coll});
     coll->pre_data = std::make_shared<PreData>();
@@ -326,6 +333,11 @@ int main()
             else if (prob == "P3")
             {
                 verif::P3 p(cfg);
+                run_problem(p, prims, seed, slots, kill_at, max_iters);
+            }
+            else if (prob == "P5")
+            {
+                verif::P5 p(cfg);
                 run_problem(p, prims, seed, slots, kill_at, max_iters);
             }
             else if (prob == "P4")
